@@ -28,6 +28,10 @@ LAWS = [
     ("same-route-attributes", "[{M}entry [attribute]] != [{M}entry [attribute]]"),
     ("same-route-children", "{M}entry (|D| [D child] != [D child])"),
     ("root-of-child", "{M}entry (|D| D child root != D root)"),
+    # the unit of a DIE is ONE unit: exactly one listed unit equals it, and every unit equal to it lists the DIE
+    ("unit-of-die-is-one-unit", "(|W| W raw unit (|U| [W raw unit (== U)] length != 1))"),
+    ("unit-of-die-lists-it", "(|W| W raw entry ?(pos < 200) (|D| W raw unit (== D unit) !(entry ?(offset == D offset) (== D))))"),
+    ("units-equal-only-if-same-entries", "(|W| W raw unit (|U| W raw unit (== U) ?([entry offset] != [U entry offset])))"),
 ]
 
 
